@@ -24,6 +24,8 @@ _CAT_TEXT = {"digit": r"\d", "word": r"\w", "space": r"\s",
 
 
 def _lit(c):
+    if c < 32:
+        return chr(c)          # a control character stands for itself in a pattern (no escape needed)
     return re.escape(chr(c))
 
 
